@@ -354,6 +354,7 @@ def finish(mod, tier, seed, tot, crashes, wall, extra_cov=None):
     )
     if harness_errors:
         for c in harness_errors:
+            print("HARNESS-ERROR in shard", c["shard"], c["exc"])
             print("HARNESS-ERROR in shard", c["shard"], c["exc"], file=sys.stderr)
             print(c["tb"], file=sys.stderr)
         return 2
